@@ -196,63 +196,50 @@ impl ast::IfStmt {
         }
     }
 
+    // The children of an IF_STMT node are, in order: the condition, the true body and,
+    // optionally, the false body. A body is either a block (an `Expr`) or a single statement.
+    fn nth_body(&self, n: usize) -> Option<BlockOrStmt> {
+        let node = self.syntax().children().nth(n + 1)?;
+        if let Some(block) = ast::BlockExpr::cast(node.clone()) {
+            Some(BlockOrStmt::BlockExpr(block))
+        } else {
+            ast::Stmt::cast(node).map(BlockOrStmt::Stmt)
+        }
+    }
     pub fn then_branch_block(&self) -> Option<ast::BlockExpr> {
-        match support::children(self.syntax()).nth(1)? {
-            ast::Expr::BlockExpr(block) => Some(block),
+        match self.nth_body(0)? {
+            BlockOrStmt::BlockExpr(block) => Some(block),
             _ => None,
         }
     }
-
-    // Hmm. Not sure why this is not `nth(1)`. (It is equivalent to `nth(0)`.)
     pub fn then_branch_stmt(&self) -> Option<ast::Stmt> {
-        support::child(&self.syntax)
-    }
-
-    // This is the `if` body, corresponding to the condition evaluating true.
-    pub fn true_body_block_or_stmt(&self) -> BlockOrStmt {
-        if let Some(body) = self.then_branch_block() {
-            BlockOrStmt::BlockExpr(body)
-        } else if let Some(stmt) = self.then_branch_stmt() {
-            BlockOrStmt::Stmt(stmt)
-        } else {
-            panic!("Error in oq3_syntax");
-        }
-    }
-
-    // Return `Some` if the else branch is present and is a curly-delimited block.
-    pub fn else_branch_block(&self) -> Option<ast::BlockExpr> {
-        match support::children(self.syntax()).nth(2)? {
-            ast::Expr::BlockExpr(block) => Some(block),
+        match self.nth_body(0)? {
+            BlockOrStmt::Stmt(stmt) => Some(stmt),
             _ => None,
         }
     }
-
-    // Return `Some` if the else branch is present and is a single statement.
-    pub fn else_branch_stmt(&self) -> Option<ast::Stmt> {
-        support::child(&self.syntax)
-    }
-
-    // This is the `else` body, corresponding to the condition evaluating false.
-    // If there is no `else` body, return `None`.
-    pub fn false_body_block_or_stmt(&self) -> Option<BlockOrStmt> {
-        if let Some(body) = self.else_branch_block() {
-            Some(BlockOrStmt::BlockExpr(body))
-        } else {
-            self.else_branch_stmt().map(BlockOrStmt::Stmt)
+    pub fn true_body_block_or_stmt(&self) -> BlockOrStmt {
+        match self.nth_body(0) {
+            Some(body) => body,
+            None => panic!("Error in oq3_syntax"),
         }
     }
-
-    // FIXME: this may have supported more than what is above.
-    // OQ3 appears not to have `elif`-like construct. So this is not useful.
-    // pub fn else_branch(&self) -> Option<ElseBranch> {
-    //     match support::children(self.syntax()).nth(2)? {
-    //         ast::Expr::BlockExpr(block) => Some(ElseBranch::Block(block)),
-    //         ast::Expr::IfExpr(elif) => Some(ElseBranch::IfExpr(elif)),
-    //         _ => None,
-    //     }
-    // }
+    pub fn else_branch_block(&self) -> Option<ast::BlockExpr> {
+        match self.nth_body(1)? {
+            BlockOrStmt::BlockExpr(block) => Some(block),
+            _ => None,
+        }
+    }
+    pub fn else_branch_stmt(&self) -> Option<ast::Stmt> {
+        match self.nth_body(1)? {
+            BlockOrStmt::Stmt(stmt) => Some(stmt),
+            _ => None,
+        }
+    }
+    pub fn false_body_block_or_stmt(&self) -> Option<BlockOrStmt> {
+        self.nth_body(1)
+    }
 }
-
 impl ast::PragmaStatement {
     fn text(&self) -> TokenText<'_> {
         text_of_first_token(self.syntax())
